@@ -149,6 +149,9 @@ const Magic = 0x55aaaa55
 type Date struct {
 	Y, M, D int
 	Zero    bool `json:",omitempty"`
+	// ZK: how the harness spells the zero 'no date' value - 0: types.Date{}; 1, 2, 3: the zero instant carrying a
+	// Location (time.Time{}.Local(), time.Time{}.In(fixed zone), time.Unix(-62135596800, 0))
+	ZK int `json:",omitempty"`
 }
 
 func (d Date) String() string {
